@@ -214,4 +214,228 @@ mod verif_kani_datetime {
             _ => assert!(false, "month stepping succeeds exactly when the wall-clock result exists and its instant is representable"),
         } }
     }
+
+    // ---- every zone at once: a TimeZone whose answers are arbitrary (over-approximates every implementation) -----------------------
+    // One recorder static that starts with a magic word (Kani 0.68 aliases a `static mut` with any constant of equal bytes).
+    struct ZRec { magic: u64, loc_calls: u8, loc_arg: Option<NaiveDateTime>, loc_res: MappedLocalTime<i32>, utc_calls: u8, utc_arg: Option<NaiveDateTime>, utc_res: i32 }
+    static mut ZREC: ZRec = ZRec { magic: 0xC0DE_5EED_D15C_0002, loc_calls: 0, loc_arg: None, loc_res: MappedLocalTime::None, utc_calls: 0, utc_arg: None, utc_res: 0 };
+    #[derive(Clone, Copy, Debug)]
+    struct AnyZone;
+    impl TimeZone for AnyZone {
+        type Offset = FixedOffset;
+        fn from_offset(_: &FixedOffset) -> AnyZone { AnyZone }
+        fn offset_from_local_date(&self, _: &NaiveDate) -> MappedLocalTime<FixedOffset> { MappedLocalTime::Single(any_offset()) }
+        fn offset_from_utc_date(&self, _: &NaiveDate) -> FixedOffset { any_offset() }
+        fn offset_from_utc_datetime(&self, utc: &NaiveDateTime) -> FixedOffset {
+            let o = any_offset();
+            unsafe { ZREC.utc_calls += 1; ZREC.utc_arg = Some(*utc); ZREC.utc_res = o.local_minus_utc(); }
+            o
+        }
+        fn offset_from_local_datetime(&self, local: &NaiveDateTime) -> MappedLocalTime<FixedOffset> {
+            let k: u8 = kani::any();
+            let r = match k { 0 => MappedLocalTime::None, 1 => MappedLocalTime::Single(any_offset()), _ => MappedLocalTime::Ambiguous(any_offset(), any_offset()) };
+            unsafe { ZREC.loc_calls += 1; ZREC.loc_arg = Some(*local); ZREC.loc_res = r.map(|o| o.local_minus_utc()); }
+            r
+        }
+    }
+    fn any_zoned() -> (NaiveDateTime, FixedOffset, DateTime<AnyZone>) { let u = any_ndt(); let o = any_offset(); (u, o, DateTime::from_naive_utc_and_offset(u, o)) }
+    /// what re-anchoring a new wall-clock reading `w` in the zone must give, from the zone's recorded answer:
+    /// the single candidate's instant (wall - offset) if it is representable and inside [lo, hi]
+    fn rezone_spec(w: Option<NaiveDateTime>, lo: bool, hi: bool) -> Option<(NaiveDateTime, i32)> {
+        let (calls, arg, res) = unsafe { (ZREC.loc_calls, ZREC.loc_arg, ZREC.loc_res) };
+        match w {
+            None => { assert!(calls == 0, "no new wall-clock reading: the zone is not asked"); None }
+            Some(w) => {
+                assert!(calls == 1 && arg == Some(w), "the zone is asked once, about the new wall-clock reading");
+                match res {
+                    MappedLocalTime::Single(o) => match w.checked_sub_offset(FixedOffset::east_opt(o).unwrap()) {
+                        Some(u) if (!lo || u >= NaiveDateTime::MIN) && (!hi || u <= NaiveDateTime::MAX) => Some((u, o)),
+                        _ => None,
+                    },
+                    _ => None,
+                }
+            }
+        }
+    }
+    fn same(got: Option<DateTime<AnyZone>>, want: Option<(NaiveDateTime, i32)>) -> bool {
+        match (got, want) { (Some(g), Some((u, o))) => g.naive_utc() == u && g.offset().local_minus_utc() == o, (None, None) => true, _ => false }
+    }
+
+    // fns: map_local (every zone, every closure)
+    #[kani::proof]
+    fn vk_dt_map_local_any_zone() {
+        let (u, o, dt) = any_zoned();
+        let f_res: Option<NaiveDateTime> = if kani::any() { Some(any_ndt()) } else { None };
+        let mut f_arg: Option<NaiveDateTime> = None;
+        let r = map_local(&dt, |l| { f_arg = Some(l); f_res });
+        kani::cover!(r.is_some()); kani::cover!(r.is_none() && f_res.is_some() && matches!(unsafe { ZREC.loc_res }, MappedLocalTime::Single(_)));
+        assert!(f_arg == Some(u.overflowing_add_offset(o)), "the closure sees the wall-clock reading (utc + offset, one day of headroom)");
+        assert!(same(r, rezone_spec(f_res, true, true)), "the closure's result is re-anchored in the zone: single candidate, representable instant");
+    }
+
+    // ---- the wrappers over map_local / from_local_datetime, with the NaiveDateTime operation taken through its contract -------------
+    // NaiveDateTime::{with_*, checked_add/sub_months, checked_add/sub_days} are proved elsewhere (vk_ndt_with_date_fields, vk_ndt_with_time_fields,
+    // vk_date_add_months, Verus datetime:checked_add_days ...); here each is a stub returning ANY Option<NaiveDateTime>, recorded.
+    struct FRec { magic: u64, calls: u8, op: u8, recv: Option<NaiveDateTime>, v: u64, res: Option<NaiveDateTime> }
+    static mut FREC: FRec = FRec { magic: 0xC0DE_5EED_D15C_0003, calls: 0, op: 0, recv: None, v: 0, res: None };
+    fn fstub(op: u8, x: &NaiveDateTime, v: u64) -> Option<NaiveDateTime> {
+        let r = if kani::any() { Some(any_ndt()) } else { None };
+        unsafe { FREC.calls += 1; FREC.op = op; FREC.recv = Some(*x); FREC.v = v; FREC.res = r; }
+        r
+    }
+    fn st_with_year(x: &NaiveDateTime, y: i32) -> Option<NaiveDateTime> { fstub(0, x, y as u32 as u64) }
+    fn st_with_month(x: &NaiveDateTime, v: u32) -> Option<NaiveDateTime> { fstub(1, x, v as u64) }
+    fn st_with_month0(x: &NaiveDateTime, v: u32) -> Option<NaiveDateTime> { fstub(2, x, v as u64) }
+    fn st_with_day(x: &NaiveDateTime, v: u32) -> Option<NaiveDateTime> { fstub(3, x, v as u64) }
+    fn st_with_day0(x: &NaiveDateTime, v: u32) -> Option<NaiveDateTime> { fstub(4, x, v as u64) }
+    fn st_with_ordinal(x: &NaiveDateTime, v: u32) -> Option<NaiveDateTime> { fstub(5, x, v as u64) }
+    fn st_with_ordinal0(x: &NaiveDateTime, v: u32) -> Option<NaiveDateTime> { fstub(6, x, v as u64) }
+    fn st_with_hour(x: &NaiveDateTime, v: u32) -> Option<NaiveDateTime> { fstub(7, x, v as u64) }
+    fn st_with_minute(x: &NaiveDateTime, v: u32) -> Option<NaiveDateTime> { fstub(8, x, v as u64) }
+    fn st_with_second(x: &NaiveDateTime, v: u32) -> Option<NaiveDateTime> { fstub(9, x, v as u64) }
+    fn st_with_nanosecond(x: &NaiveDateTime, v: u32) -> Option<NaiveDateTime> { fstub(10, x, v as u64) }
+    fn st_add_months(x: NaiveDateTime, m: crate::Months) -> Option<NaiveDateTime> { fstub(11, &x, m.as_u32() as u64) }
+    fn st_sub_months(x: NaiveDateTime, m: crate::Months) -> Option<NaiveDateTime> { fstub(12, &x, m.as_u32() as u64) }
+    fn st_add_days(x: NaiveDateTime, d: crate::Days) -> Option<NaiveDateTime> { fstub(13, &x, d.0) }
+    fn st_sub_days(x: NaiveDateTime, d: crate::Days) -> Option<NaiveDateTime> { fstub(14, &x, d.0) }
+
+    fn dt_with_fields_any_zone(lo: u8, hi: u8) {
+        let (u, o, dt) = any_zoned();
+        let w = u.overflowing_add_offset(o);
+        let v: u32 = kani::any();
+        let which: u8 = kani::any();
+        kani::assume(which >= lo && which <= hi);
+        let got = match which {
+            0 => dt.with_year(v as i32), 1 => dt.with_month(v), 2 => dt.with_month0(v), 3 => dt.with_day(v), 4 => dt.with_day0(v), 5 => dt.with_ordinal(v), 6 => dt.with_ordinal0(v),
+            7 => dt.with_hour(v), 8 => dt.with_minute(v), 9 => dt.with_second(v), _ => dt.with_nanosecond(v),
+        };
+        let (calls, op, recv, arg, res) = unsafe { (FREC.calls, FREC.op, FREC.recv, FREC.v, FREC.res) };
+        kani::cover!(got.is_some()); kani::cover!(got.is_none());
+        let new_wall = if which == 0 && w.year() == v as i32 {
+            assert!(calls == 0, "same year: the wall-clock reading is kept as it is");
+            Some(w)
+        } else {
+            assert!(calls == 1 && op == which && recv == Some(w) && arg == v as u64, "the named field of the wall-clock reading is replaced by the given value");
+            res
+        };
+        assert!(same(got, rezone_spec(new_wall, true, true)), "the new wall-clock reading is re-anchored in the zone");
+    }
+
+    // fns: Datelike::with_year for DateTime<Tz> (every zone)
+    // assumes: kani:vk_dt_map_local_any_zone, kani:vk_ndt_with_date_fields, kani:vk_ndt_with_time_fields
+    #[kani::proof]
+    #[kani::stub(<NaiveDateTime as Datelike>::with_year, st_with_year)]
+    #[kani::stub(<NaiveDateTime as Datelike>::with_month, st_with_month)]
+    #[kani::stub(<NaiveDateTime as Datelike>::with_month0, st_with_month0)]
+    #[kani::stub(<NaiveDateTime as Datelike>::with_day, st_with_day)]
+    #[kani::stub(<NaiveDateTime as Datelike>::with_day0, st_with_day0)]
+    #[kani::stub(<NaiveDateTime as Datelike>::with_ordinal, st_with_ordinal)]
+    #[kani::stub(<NaiveDateTime as Datelike>::with_ordinal0, st_with_ordinal0)]
+    #[kani::stub(<NaiveDateTime as Timelike>::with_hour, st_with_hour)]
+    #[kani::stub(<NaiveDateTime as Timelike>::with_minute, st_with_minute)]
+    #[kani::stub(<NaiveDateTime as Timelike>::with_second, st_with_second)]
+    #[kani::stub(<NaiveDateTime as Timelike>::with_nanosecond, st_with_nanosecond)]
+    fn vk_dt_with_year_any_zone() { dt_with_fields_any_zone(0, 0); }
+    // fns: Datelike::{with_month, with_month0, with_day} for DateTime<Tz> (every zone)
+    // assumes: kani:vk_dt_map_local_any_zone, kani:vk_ndt_with_date_fields, kani:vk_ndt_with_time_fields
+    #[kani::proof]
+    #[kani::stub(<NaiveDateTime as Datelike>::with_year, st_with_year)]
+    #[kani::stub(<NaiveDateTime as Datelike>::with_month, st_with_month)]
+    #[kani::stub(<NaiveDateTime as Datelike>::with_month0, st_with_month0)]
+    #[kani::stub(<NaiveDateTime as Datelike>::with_day, st_with_day)]
+    #[kani::stub(<NaiveDateTime as Datelike>::with_day0, st_with_day0)]
+    #[kani::stub(<NaiveDateTime as Datelike>::with_ordinal, st_with_ordinal)]
+    #[kani::stub(<NaiveDateTime as Datelike>::with_ordinal0, st_with_ordinal0)]
+    #[kani::stub(<NaiveDateTime as Timelike>::with_hour, st_with_hour)]
+    #[kani::stub(<NaiveDateTime as Timelike>::with_minute, st_with_minute)]
+    #[kani::stub(<NaiveDateTime as Timelike>::with_second, st_with_second)]
+    #[kani::stub(<NaiveDateTime as Timelike>::with_nanosecond, st_with_nanosecond)]
+    fn vk_dt_with_month_day_any_zone() { dt_with_fields_any_zone(1, 3); }
+    // fns: Datelike::{with_day0, with_ordinal, with_ordinal0} for DateTime<Tz> (every zone)
+    // assumes: kani:vk_dt_map_local_any_zone, kani:vk_ndt_with_date_fields, kani:vk_ndt_with_time_fields
+    #[kani::proof]
+    #[kani::stub(<NaiveDateTime as Datelike>::with_year, st_with_year)]
+    #[kani::stub(<NaiveDateTime as Datelike>::with_month, st_with_month)]
+    #[kani::stub(<NaiveDateTime as Datelike>::with_month0, st_with_month0)]
+    #[kani::stub(<NaiveDateTime as Datelike>::with_day, st_with_day)]
+    #[kani::stub(<NaiveDateTime as Datelike>::with_day0, st_with_day0)]
+    #[kani::stub(<NaiveDateTime as Datelike>::with_ordinal, st_with_ordinal)]
+    #[kani::stub(<NaiveDateTime as Datelike>::with_ordinal0, st_with_ordinal0)]
+    #[kani::stub(<NaiveDateTime as Timelike>::with_hour, st_with_hour)]
+    #[kani::stub(<NaiveDateTime as Timelike>::with_minute, st_with_minute)]
+    #[kani::stub(<NaiveDateTime as Timelike>::with_second, st_with_second)]
+    #[kani::stub(<NaiveDateTime as Timelike>::with_nanosecond, st_with_nanosecond)]
+    fn vk_dt_with_day0_ordinal_any_zone() { dt_with_fields_any_zone(4, 6); }
+    // fns: Timelike::{with_hour, with_minute, with_second, with_nanosecond} for DateTime<Tz> (every zone)
+    // assumes: kani:vk_dt_map_local_any_zone, kani:vk_ndt_with_date_fields, kani:vk_ndt_with_time_fields
+    #[kani::proof]
+    #[kani::stub(<NaiveDateTime as Datelike>::with_year, st_with_year)]
+    #[kani::stub(<NaiveDateTime as Datelike>::with_month, st_with_month)]
+    #[kani::stub(<NaiveDateTime as Datelike>::with_month0, st_with_month0)]
+    #[kani::stub(<NaiveDateTime as Datelike>::with_day, st_with_day)]
+    #[kani::stub(<NaiveDateTime as Datelike>::with_day0, st_with_day0)]
+    #[kani::stub(<NaiveDateTime as Datelike>::with_ordinal, st_with_ordinal)]
+    #[kani::stub(<NaiveDateTime as Datelike>::with_ordinal0, st_with_ordinal0)]
+    #[kani::stub(<NaiveDateTime as Timelike>::with_hour, st_with_hour)]
+    #[kani::stub(<NaiveDateTime as Timelike>::with_minute, st_with_minute)]
+    #[kani::stub(<NaiveDateTime as Timelike>::with_second, st_with_second)]
+    #[kani::stub(<NaiveDateTime as Timelike>::with_nanosecond, st_with_nanosecond)]
+    fn vk_dt_with_clock_any_zone() { dt_with_fields_any_zone(7, 10); }
+    fn dt_steps_any_zone(lo: u8, hi: u8) {
+        let (u, o, dt) = any_zoned();
+        let w = u.overflowing_add_offset(o);
+        let n: u32 = kani::any(); let n64: u64 = kani::any();
+        let which: u8 = kani::any();
+        kani::assume(which >= lo && which <= hi);
+        {
+            let got = match which {
+                0 => dt.checked_add_months(crate::Months::new(n)), 1 => dt.checked_sub_months(crate::Months::new(n)),
+                2 => dt.checked_add_days(crate::Days::new(n64)), _ => dt.checked_sub_days(crate::Days::new(n64)),
+            };
+            let (calls, op, recv, arg, res) = unsafe { (FREC.calls, FREC.op, FREC.recv, FREC.v, FREC.res) };
+            kani::cover!(got.is_some()); kani::cover!(got.is_none() && res.is_some());
+            if which == 2 && n64 == 0 { assert!(calls == 0 && got.map(|g| (g.naive_utc(), g.offset().local_minus_utc())) == Some((u, o.local_minus_utc())), "Days(0) is the identity"); }
+            else {
+                assert!(calls == 1 && op == 11 + which && recv == Some(w) && arg == (if which <= 1 { n as u64 } else { n64 }), "the step is taken on the wall-clock reading");
+                assert!(same(got, rezone_spec(res, which == 3, which == 2)), "the stepped wall-clock reading is re-anchored in the zone");
+            }
+        }
+    }
+    // fns: DateTime::checked_add_months, DateTime::checked_sub_months (every zone)
+    // assumes: kani:vk_date_add_months, kani:vk_date_sub_months
+    #[kani::proof]
+    #[kani::stub(NaiveDateTime::checked_add_months, st_add_months)]
+    #[kani::stub(NaiveDateTime::checked_sub_months, st_sub_months)]
+    #[kani::stub(NaiveDateTime::checked_add_days, st_add_days)]
+    #[kani::stub(NaiveDateTime::checked_sub_days, st_sub_days)]
+    fn vk_dt_months_any_zone() { dt_steps_any_zone(0, 1); }
+    // fns: DateTime::checked_add_days, DateTime::checked_sub_days (every zone)
+    // assumes: NaiveDateTime::checked_add_days, NaiveDateTime::checked_sub_days
+    #[kani::proof]
+    #[kani::stub(NaiveDateTime::checked_add_months, st_add_months)]
+    #[kani::stub(NaiveDateTime::checked_sub_months, st_sub_months)]
+    #[kani::stub(NaiveDateTime::checked_add_days, st_add_days)]
+    #[kani::stub(NaiveDateTime::checked_sub_days, st_sub_days)]
+    fn vk_dt_days_any_zone() { dt_steps_any_zone(2, 3); }
+    // fns: DateTime::with_time, TimeZone::from_local_datetime (every zone)
+    #[kani::proof]
+    fn vk_dt_with_time_any_zone() {
+        let (u, o, dt) = any_zoned();
+        let w = u.overflowing_add_offset(o);
+        let t = NaiveTime::from_num_seconds_from_midnight_opt(kani::any(), kani::any()); kani::assume(t.is_some());
+        let got = dt.with_time(t.unwrap());
+        let (calls, arg, res) = unsafe { (ZREC.loc_calls, ZREC.loc_arg, ZREC.loc_res) };
+        let nw = w.date().and_time(t.unwrap());
+        assert!(calls == 1 && arg == Some(nw), "the zone is asked about the wall-clock date with the new time");
+        let inst = |o: i32| nw.checked_sub_offset(FixedOffset::east_opt(o).unwrap());
+        match (got, res) {
+            (MappedLocalTime::None, MappedLocalTime::None) => {}
+            (MappedLocalTime::Single(g), MappedLocalTime::Single(o)) => assert!(Some(g.naive_utc()) == inst(o) && g.offset().local_minus_utc() == o, "single candidate"),
+            (MappedLocalTime::None, MappedLocalTime::Single(o)) => assert!(inst(o).is_none(), "dropped only when the instant is out of range"),
+            (MappedLocalTime::Ambiguous(a, b), MappedLocalTime::Ambiguous(x, y)) => assert!(Some(a.naive_utc()) == inst(x) && Some(b.naive_utc()) == inst(y) && a.offset().local_minus_utc() == x && b.offset().local_minus_utc() == y, "both candidates, in the zone's order"),
+            (MappedLocalTime::None, MappedLocalTime::Ambiguous(x, y)) => assert!(inst(x).is_none() || inst(y).is_none(), "dropped only when an instant is out of range"),
+            _ => assert!(false, "with_time returns the zone's classification"),
+        }
+        kani::cover!(matches!(got, MappedLocalTime::Ambiguous(..))); kani::cover!(matches!(got, MappedLocalTime::None) && matches!(res, MappedLocalTime::Single(_)));
+    }
 }
